@@ -262,9 +262,12 @@ def queries(ctx, extra):
     # ---- emitted-C leg: build the compiler, compile the generated kernel file at -Q0, wrap what it emitted
     as_file, c_file, cgen_c = os.path.join(gen, "bvk.as"), os.path.join(gen, "bvk.c"), os.path.join(gen, "gen_c04_cgen.c")
     gen_as(bvs, as_file)
-    aldor = ctx.build_aldor()
-    p = subprocess.run(aldor + ["-Q0", "-Fc", "bvk.as"], cwd=gen, capture_output=True, text=True)
     cgen_bvs = []
+    try:
+        aldor = ctx.build_aldor()
+        p = subprocess.run(aldor + ["-Q0", "-Fc", "bvk.as"], cwd=gen, capture_output=True, text=True)
+    except Exception as e:          # scratch build failed: the leg is reported as unavailable (query cgen_UNAVAILABLE), not as a crash
+        p = subprocess.CompletedProcess([], 1, "", "scratch build failed: " + str(e)[-600:])
     if p.returncode != 0 or not os.path.exists(c_file):
         ctx.notes.append("cgen leg: compiler did not produce C for the kernel file: " + (p.stdout + p.stderr)[-800:])
         log("C04: cgen leg unavailable -- " + (p.stdout + p.stderr)[-800:])
